@@ -489,7 +489,8 @@ func (n *Node) GetArray() (value []*Node, err error) {
 	if !ok {
 		return value, errorType()
 	}
-	return value, nil
+	// a copy: the cached list is shared by every reader of this node
+	return append([]*Node(nil), value...), nil
 }
 
 // GetObject returns map[string]*Node, if current type is Object, else: WrongType error.
@@ -508,7 +509,12 @@ func (n *Node) GetObject() (value map[string]*Node, err error) {
 	if !ok {
 		return value, errorType()
 	}
-	return value, nil
+	// a copy: the cached map is shared by every reader of this node
+	result := make(map[string]*Node, len(value))
+	for key, child := range value {
+		result[key] = child
+	}
+	return result, nil
 }
 
 // MustNull returns nil, if current type is Null, else: panic if error happened.
